@@ -49,7 +49,7 @@ LEVEL_NOTE = ("Trusted: the sqlite3 module and SQLite's own atomic commit, os.fo
 DESIGN_REF = "§5 C28"
 RULE = ("case = (starting schema, populated?, connection mode, fault plan); enumerated, not sampled (double-fault plans are sampled); "
         "distinct = hash of the case; non-trivial = at least one migration is pending at the start or a fault is injected")
-REQUIRED_REACH = ["clean_run_compared", "schema_equal_checked", "versions_once_checked", "second_run_compared",
+REQUIRED_REACH = ["multi_source_case", "clean_run_compared", "schema_equal_checked", "versions_once_checked", "second_run_compared",
                   "prefix_upgrade_compared", "legacy_bootstrap_compared", "fault_fired", "rerun_after_fault_compared",
                   "kill_fired", "deny_fired", "crash_emulation_fired", "interrupt_fired"]
 ASSUMPTIONS = [
@@ -646,6 +646,60 @@ def expand_states(env, state):
     return [state]
 
 
+MULTI_SOURCES = [("server", "llama_agents.server._store.sqlite.migrations"), ("dbos", "llama_agents.dbos._store.sqlite.migrations")]
+
+
+def _migrate_like_dbos_runtime(env, path):
+    """what DBOSRuntime.run_migrations does on SQLite: open, run_migrations over the server AND the dbos package, close (no commit by the caller)"""
+    import sqlite3
+
+    conn = sqlite3.connect(path)
+    try:
+        env.migrate.run_migrations(conn, sources=MULTI_SOURCES)
+    finally:
+        conn.close()
+
+
+def run_multi_source(env: Env, acc: Acc, mode, states):
+    """Several migration packages on one database: from every start state (incl. databases the plain server created earlier)
+    the result must equal a fresh two-package install, every (package, version) recorded once, a second run changing nothing."""
+    fpath = env.newpath("fresh2")
+    open(fpath, "wb").close()
+    try:
+        _migrate_like_dbos_runtime(env, fpath)
+    except Exception as e:  # noqa: BLE001
+        acc.inconclusive.append(f"two-package fresh install raised {e!r}")
+        return
+    fresh = snapshot(fpath, mode)
+    for state in states:
+        tmpl = build_template(env, state, mode, False)
+        path = copy_db(env, tmpl)
+        case = {"state": state, "mode": mode, "data": False, "faults": [], "sources": "server+dbos"}
+        acc.case()
+        acc.hit("multi_source_case")
+        try:
+            _migrate_like_dbos_runtime(env, path)
+            one = snapshot(path, mode)
+            _migrate_like_dbos_runtime(env, path)
+            two = snapshot(path, mode)
+        except Exception as e:  # noqa: BLE001
+            acc.violation({"mech": "migration_run_raised", "exc": type(e).__name__, "sources": "server+dbos", "start": state["kind"]},
+                          f"run_migrations over [server, dbos] from {state_tag(state)} raised {e!r}", {"case": case})
+            continue
+        if one["versions"] != fresh["versions"]:
+            acc.violation({"mech": "recorded_versions_differ_from_fresh_install", "sources": "server+dbos", "start": state["kind"]},
+                          f"from {state_tag(state)}: schema_migrations {one['versions']} != fresh two-package install {fresh['versions']}", {"case": case})
+        miss = sorted(set(fresh["schema"]) - set(one["schema"]))
+        if miss or {k: v for k, v in one["schema"].items() if k in fresh["schema"] and fresh["schema"][k] != v and not k.startswith("table:sqlite_")}:
+            acc.violation({"mech": "final_schema_differs_from_fresh_install", "sources": "server+dbos", "start": state["kind"]},
+                          f"from {state_tag(state)}: schema objects missing vs fresh two-package install: {miss[:6]}", {"case": case})
+        if one["versions"] != two["versions"] or one["schema"] != two["schema"]:
+            acc.violation({"mech": "second_run_changed_something", "sources": "server+dbos", "start": state["kind"]},
+                          f"from {state_tag(state)}: a second run changed versions {one['versions']} -> {two['versions']}", {"case": case})
+        if len(set(one["versions"] or [])) != len(one["versions"] or []):
+            acc.violation({"mech": "version_recorded_twice", "sources": "server+dbos"}, f"{one['versions']}", {"case": case})
+
+
 def run_shard(shard):
     from vf import boot
 
@@ -657,6 +711,8 @@ def run_shard(shard):
         if env.n == 0:
             acc.inconclusive.append("no packaged migrations found")
             return acc.to_dict()
+        if mode == "file" and not data:
+            run_multi_source(env, acc, mode, [x for st in shard["states"] for x in expand_states(env, st) if not (x["kind"] == "legacy_declared" and x["k"] > env.n)])
         rnd = random.Random(f"{shard['seed']}-{state_tag(shard['states'][0])}-{mode}-{data}")
         # reference: a fresh install by the same code in the same mode
         fpath = env.newpath("fresh")
